@@ -1215,6 +1215,7 @@ def discard_phi_sources(ircfg, deleted_vars):
             continue
         assignblk = block[0]
         todo = {}
+        resolved = {}
         modified = False
         for dst, src in viewitems(assignblk):
             if not src.is_op('Phi'):
@@ -1225,15 +1226,18 @@ def discard_phi_sources(ircfg, deleted_vars):
             if len(srcs) > 1:
                 todo[dst] = ExprOp('Phi', *srcs)
                 continue
-            todo[dst] = srcs.pop()
+            resolved[dst] = srcs.pop()
             modified = True
         if not modified:
             continue
+        # A Phi reduced to one source becomes a plain assignment: move it
+        # after the Phi line, which must contain Phi only
         assignblks = list(block)
-        assignblk = dict(assignblk)
-        assignblk.update(todo)
-        assignblk = AssignBlock(assignblk, assignblks[0].instr)
-        assignblks[0] = assignblk
+        for dst in list(todo):
+            if not todo[dst].is_op('Phi'):
+                resolved[dst] = todo.pop(dst)
+        assignblks[0] = AssignBlock(todo, assignblks[0].instr)
+        assignblks[1:1] = [AssignBlock(resolved, assignblks[0].instr)]
         new_irblock = IRBlock(block.loc_db, block.loc_key, assignblks)
         ircfg.blocks[block.loc_key] = new_irblock
     return True
@@ -1292,9 +1296,10 @@ def update_phi_with_deleted_edges(ircfg, edges_to_del):
         assignblks = list(block)
         assignblk = assignblks[0]
         out = {}
+        resolved = {}
         for dst, phi_sources in viewitems(assignblk):
             if not phi_sources.is_op('Phi'):
-                out[dst] = phi_sources
+                resolved[dst] = phi_sources
                 continue
             var_to_parents = get_phi_sources_parent_block(
                 ircfg,
@@ -1310,11 +1315,15 @@ def update_phi_with_deleted_edges(ircfg, edges_to_del):
                     modified = True
             assert to_keep
             if len(to_keep) == 1:
-                out[dst] = to_keep.pop()
+                # The Phi becomes a plain assignment: move it after the Phi
+                # line, which must contain Phi only
+                resolved[dst] = to_keep.pop()
             else:
                 out[dst] = ExprOp('Phi', *to_keep)
         assignblk = AssignBlock(out, assignblks[0].instr)
         assignblks[0] = assignblk
+        if resolved:
+            assignblks[1:1] = [AssignBlock(resolved, assignblk.instr)]
         new_irblock = IRBlock(block.loc_db, loc_dst, assignblks)
         blocks[block.loc_key] = new_irblock
 
